@@ -23,6 +23,9 @@ CONSTANTS
   Recipients = {"u1"}
   MaxSteps = 100
   DonateAlso = {}
+  Odd = {}
+  InitOdd = 0
+  WrongKind = FALSE
   WithUni = TRUE
 VIEW View
 INVARIANTS
